@@ -8,7 +8,10 @@ import (
 )
 
 // DPool is one delegate pool of a dumped stake-pool record.
-type DPool struct{ Bal, Rew, At uint64 }
+type DPool struct {
+	Bal, Rew, At uint64
+	Deleted      bool // Status == Deleted
+}
 
 type SPRec struct {
 	Dead   bool
@@ -92,13 +95,14 @@ func ParseDump(s string) *DumpRec {
 				}
 				id, _ := strconv.Atoi(kv[0])
 				v := strings.Split(kv[1], "/")
-				if len(v) != 3 {
+				if len(v) != 4 {
 					continue
 				}
 				var dp DPool
 				dp.Bal, _ = strconv.ParseUint(v[0], 10, 64)
 				dp.Rew, _ = strconv.ParseUint(v[1], 10, 64)
 				dp.At, _ = strconv.ParseUint(v[2], 10, 64)
+				dp.Deleted = v[3] == "d1"
 				r.Pools[id] = dp
 			}
 		}
